@@ -291,6 +291,20 @@ pub fn check07(s: &Scenario) -> CheckResult {
         ensure!((vel - p.end[1] as f64).abs() <= tol_v, "C07/arrival-velocity", "just before completion (t={}): velocity {:e}, requested end velocity {:e} (tolerance {:e}); profile {:?}", t, vel, p.end[1], tol_v, p);
         ensure!((pos - p.end[0] as f64).abs() <= tol_p, "C07/arrival-position", "just before completion (t={}): position {:e}, requested end position {:e} (tolerance {:e}); profile {:?}", t, pos, p.end[0], tol_p, p);
     }
+    // at completion itself (t = t3, and long after): whatever the profile still reports is the requested end state, exactly;
+    // a component may only be absent when a higher non-zero derivative of the end state leaves it open
+    for t in [t3, t3.saturating_add(1_000_000_000)] {
+        let tt = Time(t);
+        let (vel, pos) = (mp.get_velocity(tt), mp.get_position(tt));
+        match vel {
+            Some(v) => ensure!(same_f32(v.value, p.end[1]), "C07/completion-velocity", "at completion (t={}, t3={}): velocity {:e}, requested end velocity {:e}; profile {:?}", t, t3, v.value, p.end[1], p),
+            None => ensure!(p.end[2] != 0.0, "C07/completion-velocity", "at completion (t={}): velocity absent although the end state has zero acceleration; profile {:?}", t, p),
+        }
+        match pos {
+            Some(x) => ensure!(same_f32(x.value, p.end[0]), "C07/completion-position", "at completion (t={}, t3={}): position {:e}, requested end position {:e}; profile {:?}", t, t3, x.value, p.end[0], p),
+            None => ensure!(p.end[1] != 0.0 || p.end[2] != 0.0, "C07/completion-position", "at completion (t={}): position absent although the end state is at rest; profile {:?}", t, p),
+        }
+    }
     // mirror relation, exact
     if p.start[0] != p.end[0] {
         let m = Profile { start: p.start.map(|x| -x), end: p.end.map(|x| -x), max_vel: p.max_vel, max_acc: p.max_acc };
